@@ -1136,14 +1136,19 @@ class CallMixin:
                     # every member of the result comes from a passing index
                     p = fresh_name("p")
                     index_only = self.contract.ghost.get("filter_facts") == "index"    # profile without the two member-image facts
-                    (s_ok.assume if not index_only else (lambda t_: None))(f"(forall (({q} Int)) (! (=> (and (<= 0 {q}) (< {q} (seq.len {rs}))) (exists (({p} Int)) (and (<= 0 {p}) (< {p} (seq.len {sq})) {at(passes, p)} (= (seq.nth {rs} {q}) {elt_term(p)})))) :pattern ((seq.nth {rs} {q}))))")
+                    # (source / position indices as Skolem functions rather than existentials under the quantifier)
+                    srcf = self.declare_fun(fresh_name("fsrc"), ["Int"], "Int")
+                    p = f"({srcf} {q})"
+                    (s_ok.assume if not index_only else (lambda t_: None))(f"(forall (({q} Int)) (! (=> (and (<= 0 {q}) (< {q} (seq.len {rs}))) (and (<= 0 {p}) (< {p} (seq.len {sq})) {at(passes, p)} (= (seq.nth {rs} {q}) {elt_term(p)}))) :pattern ((seq.nth {rs} {q}))))")
                     # the first member is the image of the first passing index
                     first = fresh_name("first")
                     self.declare(first, "Int")
                     s_ok.assume(f"(=> (> (seq.len {rs}) 0) (and (<= 0 {first}) (< {first} (seq.len {sq})) {at(passes, first)} (= (seq.nth {rs} 0) {elt_term(first)}) (forall (({q} Int)) (=> (and (<= 0 {q}) (< {q} {first})) {Not(pq)}))))")
                     # every passing index contributes a member
                     pp, qq = fresh_name("pp"), fresh_name("qq")
-                    (s_ok.assume if not index_only else (lambda t_: None))(f"(forall (({pp} Int)) (! (=> (and (<= 0 {pp}) (< {pp} (seq.len {sq})) {at(passes, pp)}) (exists (({qq} Int)) (and (<= 0 {qq}) (< {qq} (seq.len {rs})) (= (seq.nth {rs} {qq}) {elt_term(pp)})))) :pattern ((seq.nth {sq} {pp}))))")
+                    posf = self.declare_fun(fresh_name("fpos"), ["Int"], "Int")
+                    qq = f"({posf} {pp})"
+                    (s_ok.assume if not index_only else (lambda t_: None))(f"(forall (({pp} Int)) (! (=> (and (<= 0 {pp}) (< {pp} (seq.len {sq})) {at(passes, pp)}) (and (<= 0 {qq}) (< {qq} (seq.len {rs})) (= (seq.nth {rs} {qq}) {elt_term(pp)}))) :pattern ((seq.nth {sq} {pp})) :pattern ({qq})))")
                 # membership form (identity element): a member of the source that passes is a member of the result
                 et = elt_term(j)
                 src_elem = f"(seq.nth {sq} {j})"
